@@ -13,4 +13,6 @@ import Kitoken.Theorems.C11
 import Kitoken.Theorems.C12
 import Kitoken.Theorems.C13
 import Kitoken.Theorems.C14
+import Kitoken.Theorems.C17
 import Kitoken.Theorems.C18
+import Kitoken.Theorems.C19
